@@ -2194,6 +2194,9 @@ func unpackResourceBody(msg []byte, off int, hdr ResourceHeader) (ResourceBody, 
 		err  error
 		name string
 	)
+	if off+int(hdr.Length) > len(msg) {
+		return nil, off, errResourceLen
+	}
 	switch hdr.Type {
 	case TypeA:
 		var rb AResource
